@@ -234,4 +234,109 @@ Section GenP.
     intros Hn Hi Hpi. unfold CollimatorImpedance_ctor, sp_coll_vec. rewrite gen_const_vec by exact Hn.
     f_equal; first [reflexivity | unfold sp_coll_Z; sample_eq].
   Qed.
+
+  (** *** shape of the generated vectors, for every sample count n >= 1 (odd, even, small) and
+      whatever the sample expressions are: exactly n samples, zero above n/2 (constant model:
+      from n/2 on) *)
+  Notation zero_above := (zero_above C c0).
+
+  Theorem gen_shape n f_rev f_max f0 L s xi b z outer inner : (1 <= n)%Z ->
+    (zlen (FreeSpaceCSR_ctor K E n f_rev f_max) = n /\ zero_above (FreeSpaceCSR_ctor K E n f_rev f_max) (n / 2)) /\
+    (zlen (ResistiveWall_ctor K E n f0 f_max L s xi b) = n /\ zero_above (ResistiveWall_ctor K E n f0 f_max L s xi b) (n / 2)) /\
+    (zlen (ConstImpedance_ctor K E n f_max z) = n /\ zero_above (ConstImpedance_ctor K E n f_max z) (n / 2 - 1) /\
+     forall i, (0 <= i < n / 2)%Z -> nthz c0 (ConstImpedance_ctor K E n f_max z) i = z) /\
+    (zlen (CollimatorImpedance_ctor K E n f_max outer inner) = n /\
+     zero_above (CollimatorImpedance_ctor K E n f_max outer inner) (n / 2 - 1)) /\
+    (zlen (Impedance_zeros K E n) = n /\ zero_above (Impedance_zeros K E n) (-1)).
+  Proof.
+    intros Hn.
+    assert (Ffs : exists f, FreeSpaceCSR_ctor K E n f_rev f_max = push_loop c0 n f).
+    { eexists. unfold FreeSpaceCSR_ctor, FreeSpaceCSR_calc. cbv zeta.
+      apply segs_push_loop; try lia; [intros i _; reflexivity|reflexivity]. }
+    assert (Frw : exists f, ResistiveWall_ctor K E n f0 f_max L s xi b = push_loop c0 n f).
+    { eexists. unfold ResistiveWall_ctor, ResistiveWall_calc. cbv zeta.
+      apply segs_push_loop; try lia; [intros i _; reflexivity|reflexivity]. }
+    assert (Fco : exists w, CollimatorImpedance_ctor K E n f_max outer inner = const_vec c0 n w).
+    { eexists. unfold CollimatorImpedance_ctor. apply gen_const_vec. lia. }
+    destruct Ffs as (ffs & ->). destruct Frw as (frw & ->). destruct Fco as (w & ->).
+    rewrite gen_const_vec by lia. rewrite gen_zeros.
+    destruct (impedance_shape_all C c0 n ffs frw z Hn) as ((A1 & _ & A3) & _ & (C1 & C2 & C3) & (D1 & D2)).
+    destruct (impedance_shape_all C c0 n frw frw w Hn) as ((B1 & _ & B3) & _ & (W1 & _ & W3) & _).
+    repeat split; assumption.
+  Qed.
+
+  (** *** the root laws over the generic field (DESIGN 3): with [cbrt^3 = id] resp.
+      [sqrt^2 = id] at the arguments used, the cube of each free-space component is
+      prefactor^3 times the harmonic, the square of the wall's real part is
+      [Z0 mu_r f0/(s pi c) (L/2b)^2] times the harmonic, and its imaginary part is minus the
+      real part.  (The correspondence's validators test exactly these identities on the
+      implementation's samples, Model/ImpGenInst.v.) *)
+  Theorem sp_fs_cube n f_rev f_max i :
+    let x := @fz K i * sp_delta n f_rev f_max in
+    let v := l_pw E x (1 / three) in
+    let z := sp_fs_sample E n f_rev f_max i in
+    v * v * v = x ->
+    fst z * fst z * fst z = fst (@sp_fs_Z0 K) * fst (@sp_fs_Z0 K) * fst (@sp_fs_Z0 K) * x /\
+    snd z * snd z * snd z = snd (@sp_fs_Z0 K) * snd (@sp_fs_Z0 K) * snd (@sp_fs_Z0 K) * x.
+  Proof.
+    cbv zeta. intros H. unfold sp_fs_sample, cmulr. cbn [fst snd].
+    set (v := l_pw E _ _) in *. rewrite <- H. split; ring.
+  Qed.
+
+  Theorem sp_rw_square n f0 f_max L s xi b i :
+    let x := @fz K i * sp_delta n f0 f_max in
+    let a := l_Z0 E * (1 + xi) * f0 / s / l_pi E / l_c E in
+    let z := sp_rw_sample E n f0 f_max L s xi b i in
+    l_sq E a * l_sq E a = a -> l_sq E x * l_sq E x = x ->
+    fst z * fst z = sp_rw_k E f0 L s xi b * x /\ snd z = - fst z.
+  Proof.
+    cbv zeta. intros Ha Hx. unfold sp_rw_sample, sp_rw_Z1, sp_rw_k. cbv zeta. cbn [fst snd].
+    split; [|reflexivity].
+    set (sa := l_sq E (l_Z0 E * (1 + xi) * f0 / s / l_pi E / l_c E)) in *.
+    set (sx := l_sq E (@fz K i * sp_delta n f0 f_max)) in *.
+    rewrite <- Ha, <- Hx. clearbody sa sx. unfold two. rewrite !(Field_theory.Fdiv_def (@Fth K)). ring.
+  Qed.
+
+  (** *** vfps::makeImpedance: the pointwise sum of the selected contributions, each built with
+      the documented arguments, or nothing - for arbitrary constructors of the four models *)
+  Ltac args_eq :=
+    match goal with
+    | |- ?x = ?x => reflexivity
+    | |- @eq (car K) _ _ => first [reflexivity | field; nz]
+    | |- _ => f_equal; args_eq
+    end.
+
+  Section Factory.
+    Variable PPc : Z -> K -> K -> K -> list C.
+    Variable FSc : Z -> K -> K -> list C.
+    Variable RWc : Z -> K -> K -> K -> K -> K -> K -> list C.
+    Variable COLLc : Z -> K -> K -> K -> list C.
+
+    Theorem gen_factory_with n fmax R_bend frev gap use_csr s xi rc file :
+      (0 <= n)%Z -> R_bend <> 0 -> frev <> 0 -> l_pi E <> 0 ->
+      makeImpedance_with K E PPc FSc RWc COLLc n fmax R_bend frev gap use_csr s xi rc file =
+      sp_factory_with E PPc FSc RWc COLLc n fmax R_bend frev gap use_csr s xi rc file.
+    Proof.
+      intros Hn HR Hf Hpi.
+      unfold makeImpedance_with, sp_factory_with, g_any_selected, g_parts, g_sel_pp, g_sel_fs, g_sel_csr,
+        g_sel_rw, g_sel_coll.
+      cbv zeta. rewrite gen_zeros, (zero_vec_sum C c0 (l_cadd E) n).
+      set (radius := l_ab E (gap / (1 + 1))).
+      replace (sp_radius E gap) with radius by (unfold radius, sp_radius, two; reflexivity).
+      destruct (l_eqb E gap 0); destruct use_csr; destruct (l_ltb E 0 gap);
+        destruct (l_ltb E 0 s && l_leb E (- (1)) xi)%bool;
+        destruct (l_ltb E 0 rc && l_ltb E rc radius)%bool;
+        destruct file as [d|]; cbn [andb orb negb app deref_add file_given file_data fst snd];
+        rewrite ?gen_add_assign; rewrite ?add_into_sum by exact Hn; cbn [app];
+        try reflexivity; unfold sp_f0, two; args_eq.
+    Qed.
+  End Factory.
+
+  (** ... in particular with the generated constructors of the closed-form models *)
+  Theorem gen_factory n fmax R_bend frev gap use_csr s xi rc file :
+    (0 <= n)%Z -> R_bend <> 0 -> frev <> 0 -> l_pi E <> 0 ->
+    makeImpedance K E n fmax R_bend frev gap use_csr s xi rc file =
+    sp_factory_with E (l_PP E) (FreeSpaceCSR_ctor K E) (ResistiveWall_ctor K E) (CollimatorImpedance_ctor K E)
+                    n fmax R_bend frev gap use_csr s xi rc file.
+  Proof. intros. unfold makeImpedance. apply gen_factory_with; assumption. Qed.
 End GenP.
